@@ -108,9 +108,10 @@ func receive(data []byte, out net.Conn) {
 	var cblen uint16
 	binary.Read(buf, binary.LittleEndian, &cblen)
 	pkt := make([]byte, cblen)
-	binary.Read(buf, binary.LittleEndian, &pkt)
+	// a length field larger than the bytes carried must not invent payload
+	n, _ := io.ReadFull(buf, pkt)
 
-	out.Write(pkt)
+	out.Write(pkt[:n])
 }
 
 // wrapSyscallError takes an error and a syscall name. If the error is
